@@ -514,7 +514,18 @@ fn typed_use(a: &mut Asm, r: &mut Rng, scratch_slot: U256) {
 /// One storage fragment on slot `s`; stack-neutral.
 fn storage_fragment(a: &mut Asm, r: &mut Rng, s: U256, slots: &[U256]) {
     let other = *r.pick(slots);
-    match r.below(29) {
+    match r.below(30) {
+        29 => {
+            // an array reached only through the literal hash of its slot
+            // (the compiler's pre-folded form), while the slot number itself
+            // occurs only as a *value*, stored under a key that is not a
+            // constant: whether the analysis has met the number before it
+            // meets the hash is then a matter of iteration order
+            let k = if r.chance(1, 2) { U256::from(r.below(300)) } else { U256::from(r.below(10_000)) };
+            typed_value(a, r);
+            a.push(keccak_word(k)).push_u(r.below(64) as u128).op(op::CALLDATALOAD).op(op::ADD).op(op::SSTORE);
+            a.push(k).push_u(64 + r.below(64) as u128).op(op::CALLDATALOAD).op(op::SSTORE);
+        }
         28 => {
             // one struct-valued mapping reached at two (or three) of its
             // members under the same key; the member offsets are constants in
@@ -915,7 +926,9 @@ pub fn gen_storage(r: &mut Rng) -> Vec<u8> {
     while slots.len() < n_slots {
         let s = match r.below(24) {
             0..=18 => U256::from(r.below(6)),
-            19 => U256::from(r.below(40)),
+            19 if r.chance(1, 2) => U256::from(r.below(40)),
+            // anywhere among the 10 000 slots whose hashes the library knows
+            19 => U256::from(40 + r.below(9_960)),
             // beyond the first 10 000 slots whose hashes the library knows
             20 => U256::from(10_000 + r.below(1 << 20)),
             21 if r.chance(1, 2) => U256::from(10_000 + r.below(50)),
